@@ -20,6 +20,8 @@ import Thanos.Model.Ring
     prune.lsm    <matchers> <sets>                                   -> 1 | 0
     prune.store  <mint> <maxt> <matchers> <dbg> <client>             -> ok|time|local|addr|extlabels|filter
     prune.ext    <matchers> <labels>                                 -> nomatch | ok <kept matchers>
+    prune.sel    <mint> <maxt> <matchers> <selspec> <keepbits> <abort> <clients>   (TSDB selector)
+                                                 -> none|invalid|unavailable|ok <store idx,…> <kept> <matchers for the selected label sets, sorted>
     prune.series <mint> <maxt> <matchers> <sel> <abort> <dbg> <clients>
                                                  -> none|invalid|unavailable|ok <store idx,…> <kept matchers>
 -/
@@ -101,6 +103,12 @@ def showReason : Reason → String
   | .ok => "ok" | .time => "time" | .localStore => "local" | .addr => "addr"
   | .extlabels => "extlabels" | .filter => "filter"
 
+def insertStrP (x : String) : List String → List String
+  | [] => [x]
+  | y :: r => if x ≤ y then x :: y :: r else y :: insertStrP x r
+
+def sortStrsP (xs : List String) : List String := xs.foldr insertStrP []
+
 def handlePrune : List String → Option String
   | ["prune.lsm", ms, sets] => do
     let ms ← parseMatchers? ms
@@ -133,6 +141,30 @@ def handlePrune : List String → Option String
       | .unavailable => "unavailable"
       | .queried [] _ => "none"     -- from outside, "nobody was asked" is all that can be seen
       | .queried idx kept => s!"ok {showNats "," idx} {showMatchers kept}")
+  | ["prune.sel", mint, maxt, ms, selspec, keepbits, abort, cs] => do
+    -- ProxyStore.Series with a TSDB selector: <selspec> = n (default selector) or the relabel rules
+    -- (only the real code reads them); <keepbits> = per store one 0/1 per label set ('|' between
+    -- stores, '-' for a store without label sets): relabel.Process keeps that label set
+    let mint ← parseInt? mint
+    let maxt ← parseInt? maxt
+    let ms ← parseMatchers? ms
+    let abort ← parseBool? abort
+    let cs ← parseClients? cs
+    let bits ← (splitChar '|' keepbits).mapM (fun b =>
+      if b = "-" then some [] else b.toList.mapM (fun ch => parseBool? (String.singleton ch)))
+    if bits.length ≠ cs.length && !(cs.isEmpty) then none else
+    let table : List (Labels × Bool) := (cs.zip bits).flatMap (fun p => p.1.extSets.zip p.2)
+    let sel : Selector := { isNil := selspec = "n",
+                            keep := fun ls => match table.find? (fun e => e.1 = ls) with
+                              | some e => e.2
+                              | none => false }
+    pure (match seriesDecisionSel sel [] abort [] cs mint maxt ms with
+      | .nomatch => "none"
+      | .invalid => "invalid"
+      | .unavailable => "unavailable"
+      | .queried [] _ _ => "none"
+      | .queried idx kept extra =>
+        s!"ok {showNats "," idx} {showMatchers kept} {joinWith ";" (sortStrsP (extra.map showMatcher))}")
   | _ => none
 
 end prune
